@@ -695,7 +695,9 @@ func readUnion(tr *tokenReader) (Union, error) {
 			}
 			nextCommentLines = append(nextCommentLines, cmt)
 		case tokenKindSemicolon:
-			// members may be terminated by a semicolon
+			// members may be terminated by a semicolon; a comment behind it on
+			// the same line is a remark on that member, not the next one's doc
+			skipEndOfLineComments(tr)
 		default:
 			return union, readError(tk, "unexpected %v in union body", tk.kind)
 		}
